@@ -127,7 +127,7 @@ func Execute(t *testing.T, sc *Scenario, seed uint64, plan, sched *sim.Tape, wan
 				s.Run(func() { r.Main(s) })
 				if !s.Finished() && !s.Failed() && sc.StuckProperty != "" {
 					s.Fail(sc.StuckProperty, "stuck", stuckSig(s), "application did not finish: timedOut=%v stepsOut=%v steps=%d\n%s",
-						s.TimedOut, s.StepsOut, s.Steps(), stuckDump())
+						s.TimedOut, s.StepsOut, s.Steps(), stuckDump(s))
 				}
 				r.Finish(s)
 			})
@@ -167,8 +167,8 @@ func stuckSig(s *sim.Sim) string {
 	return "horizon"
 }
 
-func stuckDump() string {
-	d := sim.GoroutineDump()
+func stuckDump(s *sim.Sim) string {
+	d := s.StuckDump
 	if len(d) > 20000 {
 		d = d[:20000]
 	}
